@@ -839,6 +839,10 @@ class RTDCWriter:
         if len(data.shape) == 1:
             # store scalar data in one go
             dset[offset:] = data
+            if data.dtype != dset.dtype:
+                # The data were converted to the type of the dataset:
+                # the summaries below must describe what is stored.
+                data = dset[offset:]
             # store ufunc data for min/max
             for uname, ufunc in [("min", np.nanmin),
                                  ("max", np.nanmax)]:
